@@ -292,4 +292,10 @@ def obligations(tier, seed):
                             desc="reading the disconnect cause returns RestartNeeded(that cause) and leaves it stored, so every outstanding and later call, and every on_disconnect(), "
                                  "gets the cause - never the 'cause unknown' placeholder - once it was recorded", bounds="cause recorded / not recorded", keydetail="cause-consumed",
                             replay=dict(scenario="c09_cause_for_everyone", vars={}, fixed={}, region=z3.BoolVal(True))))
+    # "no call, batch or subscribe future stays pending longer than the request timeout ... for any bytes the server may send": whatever a subscribe is answered with -
+    # also a subscription id already in use - its caller's channel is completed (shared with C03: the routing step)
+    from . import C03 as _c03
+    for r in _c03.route_obligations(core, [("pending_sub", "active_sub")]):
+        if r.get("name", "").endswith(":own-response"):
+            out.append(r)
     return out
